@@ -320,7 +320,7 @@ def decorate(rng, base, gentle=False):
 def gen_edge_prog(rng):
     """directed family around the CHECKED cursor arithmetic and the bank checks: `#addr` at the ends of a bank's range and
     where delta x unit overflows usize, `#res` whose size x unit is huge, negative / huge bank addresses, `labelalign`
-    and `#align` that are not multiples of the unit, zero-sized data (F49), bank windows whose end overflows (F48).
+    and `#align` that are not multiples of the unit, zero-sized data (F49), bank windows whose end overflows (F48, fixed), unrepresentable output positions (F61, fixed).
     A huge position is always followed by a WRITTEN item (only writes are range-checked; see the note on
     Model/Output.check_bank_output in the Resolver2 report)."""
     p = Prog2(asm_gen.Isa())
@@ -366,14 +366,14 @@ def gen_edge_prog(rng):
         if rng.chance(0.5):
             it.append(('label', 'x', 0))
     elif k < 75:
-        # F61: labels and #res add outp + position unchecked
+        # regression for F61 (fixed 6fb2301): outp + position of a label / #res is not representable -> no output position
         it.append(('bankdef', 'a', {'bits': str(u), 'addr': '0', 'outp': hx(rng.choice([(1 << 64) - 1, (1 << 64) - 8, (1 << 64) - 16]))}))
         it.append(('res', str(rng.below(3))))
         it.append(('label', 'x', 0))
         if rng.chance(0.3):
             it.append(('data', 8, ['1']))
     elif k < 82:
-        # bank windows (F48: `outp + size` is a plain `+`)
+        # regression for F48 (fixed abbd199): a bank window whose end is not representable ends after everything
         o1 = rng.choice([(1 << 64) - 1, (1 << 64) - 8, 0, 8, 1 << 63])
         it.append(('bankdef', 'a', {'bits': str(u), 'size': hx(rng.choice([0, 1, 2, (1 << 64) // u - 1])), 'outp': hx(o1)}))
         it.append(('bankdef', 'b', {'bits': '1', 'size': rng.choice(['1', '8', '0']), 'outp': hx(rng.choice([0, 8, 16]))}))
@@ -608,23 +608,3 @@ def banks_to_model(s):
         h = lambda v: '-' if v == '-' else '%x' % int(v)
         out.append(','.join([a, h(u), h(la), h(sz), h(o), f]))
     return ';'.join(out)
-
-
-def panic_class(p):
-    """known classes of debug-build panics that the model predicts as Panic: F48 (bank window end overflows, two windows
-    compared) and F61 (outp + position of a label / #res overflows)"""
-    big = [it for it in p.items if it[0] == 'bankdef' and _int(it[2].get('outp')) is not None and
-           _int(it[2].get('outp')) + max(0, _int(it[2].get('size')) or 0) * max(1, _int(it[2].get('bits')) or 8) >= (1 << 64) - 64]
-    nbank = sum(1 for it in p.items if it[0] == 'bankdef')
-    if big and nbank >= 2:
-        return 'F48'
-    if big:
-        return 'F61'
-    return None
-
-
-def _int(t):
-    try:
-        return int(t, 0)
-    except (TypeError, ValueError):
-        return None
